@@ -605,7 +605,9 @@ impl Formatter<'_> {
                         && s.ends_with(' ')
                         && !s.trim_start().starts_with("$ ")
                     {
-                        let mut trim_s = s.trim_end().to_string();
+                        // Only spaces are padding: other Unicode whitespace is
+                        // part of a token
+                        let mut trim_s = s.trim_end_matches(' ').to_string();
                         if trim_s.ends_with(['@', '$']) && trim_s != s {
                             trim_s.push(' ');
                         }
